@@ -7,6 +7,16 @@ ALL = ["C%02d" % i for i in range(1, 21)]
 
 # property -> (category, technique, text, note, design_ref)
 CHECKS = {
+ "C18": ("exploration",
+   "exhaustive run of an enumerated finite catalogue of matrices x every embedding size (incl. the error sizes) x whitening, against an own Jacobi eigen-decomposition of the sample covariance",
+   "164 / 2488 catalogue matrices (n in {6,9,12,20} / 6..20, p in {1,2,3,5}: rank-1 lattices, exactly isotropic sets, axis scales 1:10:100 plain and rotated, low-rank + jitter, offsets 1e3, column scales 1e-3 / 1e3) x every k in 0..=p+1 x whitening off / on, plus empty data. Oracle (own cyclic Jacobi on the n-1 covariance, residual verified per matrix): components orthonormal, singular values non-increasing, each axis aligned with its eigenvector (degenerate blocks compared by projector), variances of the projected data == explained_variance == sigma^2/(n-1) == eigenvalue, retained variance == sum of the k largest eigenvalues (Ky Fan), whitened covariance == I, inverse_transform(transform(X)) == orthogonal projection about the mean, ratios finite and proportional, errors for empty data and sizes outside 1..p, predict == transform.",
+   "A bounded claim over the catalogue, not over all matrices. Tolerance 1e-6 for everything that goes through LOBPCG (its documented accuracy; measured maxima of passing fits are 4e-7..9.5e-7), 1e-9 for formulas recomputed from the model's own numbers. (matrix, k) pairs whose k-th eigenvalue is below 100x the solver's null-space cut-off are out of domain; eigenvalue blocks straddling the cut are not aligned with anything.",
+   "DESIGN.md 4/C18"),
+ "C04": ("exploration",
+   "bounded exhaustive enumeration: the full Cartesian product of boundary values of every parameter of every builder, checked against documented predicates transcribed with their source lines",
+   "31 builder variants (every builder of the statement; SVM in six variants; the three blanket impls of param_guard.rs through a counting mock) x per-parameter boundary tables (far below, just below, -0.0, +0.0, just inside, inside, far inside, just below / at / just above the upper bound, far above) in f32 and f64, full product per builder (48,256 grid points). Per point: check() and check_ref() give the same verdict and error, the builder is unchanged by check_ref, the verdict equals the documented predicate, an invalid point makes every fit / fit_with / transform form on the unchecked builder return that same error without panicking or training, a valid point behaves like its checked form (fingerprint of the fitted model).",
+   "Documented predicates are transcribed by hand from setter rustdoc, range tables and error texts (sources cited per entry in the evidence). Points where those sources contradict each other or a pinning test (listed in the evidence, e.g. GMM reg_covar = 0, SVM nu = 0, Platt minstep = 0, tree min_impurity_decrease in (0, eps)) are consistency-only. Non-finite values are outside the property. A few pathological training calls (solver can only stop at its 10^7 cap) get the verdict oracles only.",
+   "DESIGN.md 4/C04"),
  "C06": ("exploration",
    "bounded exhaustive enumeration of record matrices x kernel methods x dense / every sparse k x the three neighbour indices, and of linkage x every cluster count x boundary / midpoint thresholds, against an own kernel function and a tie-exploring Lance-Williams reference",
    "Every subset of 2..5/6 points of the 3x3 lattice (plus generic-position images), 1-D multisets with duplicates, a 3-feature pool, and structured sets above the index leaf size; Linear / Gaussian / Polynomial kernels in f64 and f32; Dense and Sparse(k) for every 0<k<n with each neighbour index, owned kernels and views: every stored cell against the own kernel function, symmetry, Gaussian unit diagonal and PSD (Jacobi), sparse pattern squeezed between 'stored under every tie-break' and 'under some tie-break' of a brute-force ranking (exact on generic sets), size / sum / column / diagonal / upper triangle / dot against the stored matrix, documented panics. Clustering: 7 linkages x NumClusters(1..n+1) x thresholds exactly at and between every dissimilarity: label count == min(c, n), partition reachable by the reference agglomeration (ties followed exhaustively), single linkage == connected components of {d < t}.",
